@@ -4,17 +4,36 @@
 (* reaching the first file, a failure at every level (a path value that points to nothing; a nested file that is   *)
 (* not there; a file that cannot be loaded) -- every step of the cwd machine on each.                                                           *)
 EXTENDS Paths, Json, SequencesExt
-CONSTANTS MaxDepth, Emit
+CONSTANTS MaxDepth, Emit,
+          Universe      \* "chain" (rounds 1-3: regular files named plainly, decoys everywhere, planted failures) | "link" / "linkfull" (round 4)
 
 Dirs   == {"A", "B", "C"}
 Starts == {"P", "A"}                  \* the process cwd: a directory of its own, or the directory of a config file
 Fails(n) == {<<"none", 0>>} \cup {<<"badpath", k>> : k \in 1..n} \cup {<<"missingfile", k>> : k \in 2..n} \cup {<<"badyaml", k>> : k \in 1..n}
 \* (the last file holds no nested reference, so the order inside it does not matter: first[n] = TRUE)
-Programs == UNION {{q \in [dirs : [1..n -> Dirs], first : [1..n -> BOOLEAN], start : Starts, entry : {"file", "sub"}, fail : Fails(n)] : q.first[n]} : n \in 1..MaxDepth}
+ChainBase == UNION {{q \in [dirs : [1..n -> Dirs], first : [1..n -> BOOLEAN], start : Starts, entry : {"file", "sub"}, fail : Fails(n)] : q.first[n]} : n \in 1..(IF Universe = "chain" THEN MaxDepth ELSE 0)}
+ChainPrograms == {[dirs |-> q.dirs, tdirs |-> q.dirs, xdirs |-> q.dirs, place |-> [k \in DOMAIN q.dirs |-> "all"], first |-> q.first, start |-> q.start, entry |-> q.entry, fail |-> q.fail] : q \in ChainBase}
+\* Round 4 -- symbolic links.  The file of level k is named in dirs[k]; it is a symbolic link to a file in tdirs[k] when
+\* tdirs[k] # dirs[k]; it is spelled X/dl/../file through a symbolic link dl (in xdirs[k]) to a subdirectory of dirs[k] when
+\* xdirs[k] # dirs[k].  The value's relative name exists next to the link only / next to the target only / only where the
+\* textual reading points / in all three.  No failure is planted: a parse fails because of where the value's file is.
+\* "link": the target lives in the next directory or in the same one, the textual reading is two further or the same
+\* (12 shapes per level); "linkfull": all 27 shapes.
+NextDir(d) == CASE d = "A" -> "B" [] d = "B" -> "C" [] d = "C" -> "A"
+Shapes == IF Universe = "linkfull" THEN {<<d, t, x>> : d \in Dirs, t \in Dirs, x \in Dirs}
+          ELSE {sh \in Dirs \X Dirs \X Dirs : sh[2] \in {sh[1], NextDir(sh[1])} /\ sh[3] \in {sh[1], NextDir(NextDir(sh[1]))}}
+Places == {"named", "target", "textual", "three"}
+LinkStarts == IF Universe = "linkfull" THEN Starts ELSE {"P"}
+LinkDepth == IF Universe = "chain" THEN 0 ELSE MaxDepth
+LinkProgram(n, sh, pl, f, st, en) == [dirs |-> [k \in 1..n |-> sh[k][1]], tdirs |-> [k \in 1..n |-> sh[k][2]], xdirs |-> [k \in 1..n |-> sh[k][3]], place |-> pl,
+                                      first |-> [k \in 1..n |-> k = n \/ f], start |-> st, entry |-> en, fail |-> <<"none", 0>>]
+\* (enumerated by nested quantifiers, not as one set: TLC's normalisation of a set of 93 312 records takes > 10 min)
+LinkInit(q) == \E n \in 1..LinkDepth : \E sh \in [1..n -> Shapes], pl \in [1..n -> Places], f \in BOOLEAN, st \in LinkStarts, en \in {"file", "sub"} :
+                 (n > 1 \/ f) /\ q = LinkProgram(n, sh, pl, f, st, en)
 
 VARIABLES p, s
 vars == <<p, s>>
-Init == p \in Programs /\ s = CStart(p)
+Init == (IF Universe = "chain" THEN p \in ChainPrograms ELSE LinkInit(p)) /\ s = CStart(p)
 \* one TLC action per phase of the machine (for -coverage)
 A_Ref        == ~CQuiescent(s) /\ CTop(s)[2] = "ref" /\ s' = CStep(p, s) /\ UNCHANGED p
 A_LoadEnter  == ~CQuiescent(s) /\ CTop(s)[2] = "load_enter" /\ s' = CStep(p, s) /\ UNCHANGED p
@@ -33,21 +52,26 @@ CTypeOK == /\ s.cwd \in AllDirs /\ s.cpd \in AllDirs \cup {"none"}
            /\ \A j \in 1..Len(s.ctl) : s.ctl[j][1] \in 1..NLevels(p)
            /\ \A j \in 1..Len(s.frames) : s.frames[j][1] \in AllDirs
 \* C19 (b): relative references follow the file that contains them -- in every state, also while an exception unwinds
-InvResolves == ResolvesInFileDir(p, s.log)
+\* (outside the named deviation DotDotTextual: a file spelled through "symlinked directory/..")
+InvResolves == ~DotDotTextual(p) => ResolvesInFileDir(p, s.log)
 \* C19 (b): the working directory (and current_path_dir) are restored on both exits
 InvRestored == CwdRestored(p, s)
 \* the discipline that makes both true: one open manager per control frame that is between Enter and Exit, and the
 \* process sits in the directory of the innermost file being applied
 InsideFrames == SelectSeq(s.ctl, LAMBDA c : Inside(c[2]))
 InvStack == /\ Len(s.frames) = Len(InsideFrames)
-            /\ s.cwd = (IF InsideFrames = << >> THEN p.start ELSE p.dirs[InsideFrames[Len(InsideFrames)][1]])
-            /\ s.cpd = (IF InsideFrames = << >> THEN "none" ELSE p.dirs[InsideFrames[Len(InsideFrames)][1]])
+            /\ s.cwd = (IF InsideFrames = << >> THEN p.start ELSE AlgDir(p, InsideFrames[Len(InsideFrames)][1]))
+            /\ s.cpd = (IF InsideFrames = << >> THEN "none" ELSE AlgDir(p, InsideFrames[Len(InsideFrames)][1]))
 \* the small-step machine and the recursive CRun of the trace specification are one machine
 InvRunAgrees == CQuiescent(s) => CRun(p) = s
 \* an exception is raised exactly when a failure was planted, and a level below a failure is never reached afterwards
-InvOutcome == CQuiescent(s) => (s.exc <=> p.fail[1] # "none")
+InvOutcome == CQuiescent(s) => /\ ~DotDotTextual(p) => (s.exc <=> RefRaises(p))
+                               /\ (Universe = "chain") => (s.exc <=> p.fail[1] # "none")
+\* Round 4: where the link's TARGET lives matters only through where the value's file exists -- the run of a program whose
+\* values do not live next to the target is the run of the same program with regular files (tdirs = dirs)
+InvTargetIrrelevant == (CQuiescent(s) /\ \A k \in DOMAIN p.dirs : p.place[k] \in {"all", "named", "textual"}) => CRun([p EXCEPT !.tdirs = p.dirs]) = s
 
 FnSeq(f) == [j \in 1..Len(f) |-> f[j]]
-ProgJson == [dirs |-> FnSeq(p.dirs), first |-> FnSeq(p.first), start |-> p.start, entry |-> p.entry, fail |-> p.fail]
+ProgJson == [dirs |-> FnSeq(p.dirs), tdirs |-> FnSeq(p.tdirs), xdirs |-> FnSeq(p.xdirs), place |-> FnSeq(p.place), first |-> FnSeq(p.first), start |-> p.start, entry |-> p.entry, fail |-> p.fail]
 EmitBehaviour == (Emit /\ CQuiescent(s)) => PrintT(ToJson([p |-> ProgJson, exc |-> s.exc, log |-> s.log]))
 =============================================================================
